@@ -2,7 +2,7 @@
 From Coq Require Import List Arith ZArith NArith Bool.
 From Coq.Strings Require Import Byte.
 Import ListNotations.
-From SV Require Import Text C09_Model C09_Lemmas C09_Extract C09_Record C09_Box C09_Unterm.
+From SV Require Import Text C09_Model C09_Lemmas C09_Extract C09_Record C09_Box C09_Unterm C09_Scan C09_Parse C09_Get.
 
 (* P0 (DESIGN appendix A): for every line width, newline sequence and residue string, stripping the newline bytes from the bytes
    [off i, off j) of the wrapped text, off x = x + (x / w) * |nl| (fastaindex.py:118,132), gives s[i:j] *)
@@ -108,6 +108,117 @@ Print Assumptions C09_index_get_box.
 
 Example C09_box_size : length box_cfgs = 960.
 Proof. exact box_size. Qed.
+
+(* P1 scan_index, UNBOUNDED: for every non-empty list of well-formed records (any widths, sequence lengths incl. empty, LF or
+   CRLF) rendered with a final newline, the scanner yields exactly one entry per record: its id, the file number, the byte
+   offset of its '>' and the line length C09_extract_record assumes (0 unless the residues continue after the first line) *)
+Theorem C09_scan_index : forall mode crlf (rs : list arec) (fn : nat),
+  rs <> [] -> Forall (fun r => wf_rec mode (length (nl_of crlf)) r = true) rs ->
+  scan_file (render_file crlf true rs) fn = Ok (expected_from (nl_of crlf) fn 0 rs).
+Proof. exact scan_index. Qed.
+Print Assumptions C09_scan_index.
+
+(* the same for a file WITHOUT final newline, including a last record that is only a header without newline *)
+Theorem C09_scan_index_unterminated : forall mode crlf (init : list arec) (r : arec) (fn : nat),
+  Forall (fun r => wf_rec mode (length (nl_of crlf)) r = true) (init ++ [r]) ->
+  scan_file (render_file crlf false (init ++ [r])) fn = Ok (expected_from (nl_of crlf) fn 0 (init ++ [r])).
+Proof. exact scan_index_unterminated. Qed.
+Print Assumptions C09_scan_index_unterminated.
+
+(* the remaining unterminated case: a last record with an empty sequence whose header has no newline; the scanner stores
+   (id, 0, offset) for it and every query returns the header and no residues *)
+Theorem C09_degenerate_last_record : forall (pre hrest id : str),
+  forallb nonnl hrest = true -> forallb notGT hrest = true -> first_word hrest = Some id ->
+  (forall fn, scan_step (pre ++ GT :: hrest) fn (length pre) = Ok (Entry id fn 0 (length pre), None))
+  /\ forall q : qkind,
+       (match q with QRange (Some i) _ => (0 <= i)%Z | _ => True end) ->
+       (match q with QRange _ (Some j) => (0 <= j)%Z | _ => True end) ->
+       extract (pre ++ GT :: hrest) 0 (length pre) q = Ok (GT :: hrest).
+Proof. exact (fun pre hrest id H1 H2 H3 => conj (scan_step_degenerate pre hrest id H1 H3) (extract_degenerate pre hrest H1 H2)). Qed.
+Print Assumptions C09_degenerate_last_record.
+
+(* the FASTA reader on the extracted text, UNBOUNDED: a header line of a well-formed record followed by any bytes made of
+   residues and line terminators (a CR only directly before LF or at the very end) parses to the record id, the stripped
+   header and the upper-cased residues *)
+Theorem C09_parse_extracted : forall mode crlf (r : arec) (data : str),
+  wf_rec mode (length (nl_of crlf)) r = true -> forallb datab data = true -> cr_ok data = true ->
+  parse_get (header_line (nl_of crlf) r ++ data)
+  = Ok (Some (rid r), strip_ws (rid r ++ rdesc r ++ nl_of crlf), upper (filter nonnl data)).
+Proof. exact parse_extracted. Qed.
+Print Assumptions C09_parse_extracted.
+
+(* FastaIndex.get on a record = extraction composed with the reader: the whole-record query gives (id, header, upper(s)),
+   every range query (id, header, upper(s[i:j])) with Python's clipping *)
+Theorem C09_get_record : forall mode crlf (r : arec) (pre post : str),
+  wf_rec mode (length (nl_of crlf)) r = true ->
+  (post = [] \/ exists p, post = GT :: p) ->
+  let nl := nl_of crlf in
+  let f := pre ++ render_rec nl r ++ post in
+  let ll := linelen_of crlf r in
+  (exists txt, extract f ll (length pre) QFull = Ok txt
+               /\ parse_get txt = Ok (Some (rid r), hdr crlf r, upper (rseq r)))
+  /\ forall oi oj : option nat,
+       (match oi, oj with Some i, Some j => i <= j | _, _ => True end) ->
+       exists txt, extract f ll (length pre) (QRange (option_map Z.of_nat oi) (option_map Z.of_nat oj)) = Ok txt
+                   /\ parse_get txt = Ok (Some (rid r), hdr crlf r, upper (sl (rseq r) oi oj)).
+Proof. exact get_record. Qed.
+Print Assumptions C09_get_record.
+
+(* P1 index_get_spec, UNBOUNDED end to end on the model: any set of well-formed files (registration order = list order, every
+   file with final newline, any number of records, widths, LF/CRLF per file), ids distinct over the set; binary mode, or dbm
+   mode with fewer than 65536 files.  The index is what the scanner yields; len(index) is the number of records; for every
+   record of every file get_fastaheader returns its header line, get_fasta its text, get (id, header, upper(s)) and
+   get (id, i, j) (id, header, upper(s[i:j])) with Python's clipping -- identically in both modes. *)
+Theorem C09_index_get_spec : forall mode (fs : list afile),
+  (mode = MODE_BINARY \/ (mode = MODE_DB /\ (N.of_nat (length fs) < 65536)%N)) ->
+  Forall (wf_afile mode) fs -> NoDup (all_ids fs) ->
+  let reg := map afile_bytes fs in
+  let es := entries_from 0 fs in
+  scan_files reg 0 = Ok es
+  /\ distinct_ids es [] = length (all_ids fs)
+  /\ forall k crlf rs1 r rs2, nth_error fs k = Some (crlf, rs1 ++ r :: rs2) ->
+     let nl := nl_of crlf in
+     (forall rng, answer mode reg es (Query 2 (rid r) rng) = VS (header_line nl r))
+     /\ answer mode reg es (Query 1 (rid r) None) = VS (render_rec nl r)
+     /\ answer mode reg es (Query 0 (rid r) None) = VL [VS (rid r); VS (hdr crlf r); VS (upper (rseq r))]
+     /\ forall oi oj : option nat,
+          (match oi, oj with Some i, Some j => i <= j | None, None => False | _, _ => True end) ->
+          answer mode reg es (Query 0 (rid r) (Some (option_map Z.of_nat oi, option_map Z.of_nat oj)))
+          = VL [VS (rid r); VS (hdr crlf r); VS (upper (sl (rseq r) oi oj))].
+Proof. exact index_get_spec. Qed.
+Print Assumptions C09_index_get_spec.
+
+Example C09_index_get_spec_witness :
+  Forall (wf_afile MODE_DB) ex_files /\ NoDup (all_ids ex_files) /\ (N.of_nat (length ex_files) < 65536)%N.
+Proof. exact ex_files_ok. Qed.
+
+(* the binary-search and the dbm back end return identical answers: for EVERY query (any api, any range, also malformed ones)
+   on an id of the index, whenever file numbers and line lengths fit the two-byte dbm fields (the stores themselves are
+   trusted; reopening is not modelled) *)
+Theorem C09_modes_agree : forall (files : list str) (es : list entry) (q : query),
+  (forall e, In e es -> (N.of_nat (e_fn e) < 65536)%N /\ (N.of_nat (e_linelen e) < 65536)%N) ->
+  lookup (q_id q) es None <> None ->
+  answer MODE_BINARY files es q = answer MODE_DB files es q.
+Proof. exact modes_agree. Qed.
+Print Assumptions C09_modes_agree.
+
+(* get on the last record (non-empty sequence) of a file without final newline: header, whole record and ranges *)
+Theorem C09_get_record_unterminated : forall mode crlf (r : arec) (pre : str),
+  wf_rec mode (length (nl_of crlf)) r = true -> rseq r <> [] ->
+  let nl := nl_of crlf in
+  let rr := render_rec nl r in
+  let U := firstn (length rr - length nl) rr in
+  let f := pre ++ U in
+  let ll := linelen_of crlf r in
+  extract f ll (length pre) QHeader = Ok (header_line nl r)
+  /\ (exists txt, extract f ll (length pre) QFull = Ok txt /\ txt = U
+                  /\ parse_get txt = Ok (Some (rid r), hdr crlf r, upper (rseq r)))
+  /\ forall oi oj : option nat,
+       (match oi, oj with Some i, Some j => i <= j | _, _ => True end) ->
+       exists txt, extract f ll (length pre) (QRange (option_map Z.of_nat oi) (option_map Z.of_nat oj)) = Ok txt
+                   /\ parse_get txt = Ok (Some (rid r), hdr crlf r, upper (sl (rseq r) oi oj)).
+Proof. exact get_record_unterminated. Qed.
+Print Assumptions C09_get_record_unterminated.
 
 (* non-vacuity: a CRLF record of 12 residues at width 5 between two other records; the range 3..8 crosses a line break,
    9..30 is clipped, 20..30 starts beyond the end *)
